@@ -18,6 +18,8 @@ def main(argv):
             i += 1
     seed = int(os.environ.get('VERIF_SEED', '20260926'))
 
+    from . import covmon
+    covmon.start()          # before the implementation is imported: module-level lines count too
     from . import build as buildmod, engine
     from .props import PROPS, TRUSTED_BASE, COMMON_ASSUMPTIONS
     cfg = PROPS[prop]
@@ -40,6 +42,16 @@ def main(argv):
         corpus_v = run_corpus(prop, cfg, term, rep)
         oracle_v, divs = cfg['run'](rep, random.Random(seed), tier, term)
         oracle_v = corpus_v + oracle_v
+        if 'Gen/Fns.v' in binfo.get('cone', []):
+            # the four translated functions: enumerated function-level correspondence (the tie for any of them whose
+            # source shape the translator did not recognise, a second tie for the others)
+            from . import fncorr
+            fv, fd = fncorr.run(rep)
+            oracle_v += fv
+            divs = list(divs) + fd
+            if binfo.get('untranslated_fns'):
+                rep.notes.append('functions whose source shape the translator does not know (reference form in Gen/Fns.v, tied by '
+                                 'harness/fncorr.py instead of by the obligation): %s' % binfo['untranslated_fns'])
     except Exception:
         print('INTERNAL: harness error\n' + traceback.format_exc())
         return 2
@@ -159,7 +171,12 @@ def do_replay(prop, cfg, path, term):
         print(json.dumps(data.get('broken'), indent=1)[:3000])
         return 1
     v = data['violation']
-    res = cfg['replay'](v, term)
+    if str(v.get('oracle', '')).startswith('fn.'):
+        from . import fncorr
+        fv, _ = fncorr.run(None)
+        res = [x['msg'] for x in fv if x.get('oracle') == v.get('oracle') and x.get('case') == v.get('case')]
+    else:
+        res = cfg['replay'](v, term)
     if res:
         print('VIOLATION property=%s replay=%s' % (prop, path))
         print('  ' + str(res)[:1000])
